@@ -114,7 +114,8 @@ example : requiredFee ⟨0, 4294967295, 48⟩ 4294967297 = some 18446744073709 :
     that removes a *fulfilled* HTLC has been handed to `chain::Watch` (let alone become durable), the preimage
     is durable in the upstream monitor — on every schedule, with crashes and restarts anywhere.
     (`downRaaUpdate ≠ notYet` only happens after removal, see `raa_only_after_removal`; for an HTLC removed by
-    *failure* there is no preimage and nothing to gate.) -/
+    *failure* there is no preimage and nothing to gate.)  The gate is the `blocker` flag
+    (`actions_blocking_raa_monitor_updates`): see `blocker_removed_only_when_durable`. -/
 theorem preimage_durable_before_removal_irrevocable (ops : List Op) :
     let s := run init ops
     (s.downRaaUpdate = .handedToWatch ∨ s.downRaaUpdate = .durable) → s.down ≠ .removedByFail →
@@ -126,6 +127,24 @@ theorem preimage_durable_before_removal_irrevocable (ops : List Op) :
     · exact h
     · exact absurd h hd
   exact I.raa_gate this hr
+
+/-- the `RAAMonitorUpdateBlockingAction` registered by `update_fulfill_htlc` is gone only if the upstream preimage
+    update is durable (it may stay longer: until ALL in-flight updates of the upstream channel are complete) -/
+theorem blocker_removed_only_when_durable (ops : List Op) :
+    let s := run init ops
+    (s.down = .fulfilSeen ∨ s.down = .removedByFulfil) → s.blocker = false → s.upPreimageDurable = true :=
+  (inv_reachable ops).blocker_gate
+
+/-- non-vacuity of "may stay longer": a retransmitted fulfil re-adds the blocker while unrelated upstream updates
+    are in flight; the revocation is parked although the preimage is durable, and released when they complete -/
+example :
+    let s := run init [.setSync false, .recvFulfilDown, .complete .up, .handUpOther, .recvFulfilDown, .recvCsDown,
+      .complete .downCs, .recvRaaDown]
+    s.upPreimageDurable = true ∧ s.blocker = true ∧ s.downRaaUpdate = .blocked := by decide
+example :
+    let s := run init [.setSync false, .recvFulfilDown, .complete .up, .handUpOther, .recvFulfilDown, .recvCsDown,
+      .complete .downCs, .recvRaaDown, .completeUpOther]
+    s.blocker = false ∧ s.downRaaUpdate = .handedToWatch := by decide
 
 theorem raa_only_after_removal (ops : List Op) :
     let s := run init ops
@@ -159,12 +178,10 @@ theorem claim_replayed (s : St) (sy : Bool) (hdead : s.alive = false)
     let s' := step s (.restart sy)
     s'.alive = true ∧ s'.up = .pending ∧ s'.upPreimageHandedToWatch = true ∧
     (sy = true → fulfilAllowed s' = true) := by
-  obtain ⟨alive, sync, down, uh, ud, cs, raa, up, depth⟩ := s
-  simp only at hdead hp
-  subst hdead hp
-  cases sy <;> cases uh <;> cases ud <;> cases raa <;> cases cs <;> cases down <;>
-    simp_all [step, claimUpstream, releaseBlocked, handRaa, completeAll, durDownKnowsPreimage,
-      durUpKnowsPreimage, fulfilAllowed]
+  have hk' : (durDownKnowsPreimage s || durUpKnowsPreimage s) = true := by
+    rcases hk with h | h <;> simp [h]
+  obtain ⟨a, b, c, d⟩ := restart_replays s sy hdead hk' hp
+  exact ⟨a, b, c, fun h => by simpa [fulfilAllowed] using d h⟩
 
 /-- the same on every run of the machine, phrased with the state *after* the restart (as the property reads):
     after any op list ending in a restart of a crashed node, a durable monitor knowing the preimage with the
